@@ -797,6 +797,16 @@ def check_C04(chk, tier, seed):
                 for announce in (20 + decl + pad, 20 + decl + pad + len(tailavp)):
                     body = avp + b"\0" * 12 + (tailavp if announce > 20 + decl + pad else b"")
                     fam.append(("fixed-size-length-lie", "g", bytes([1]) + gen.be(announce, 3) + bytes([0x80]) + gen.be(272, 3) + gen.be(4, 4) + gen.be(1, 4) + gen.be(2, 4) + body, False))
+                # the same lie with the frame ENDING where it says it ends (the value's missing octets are simply not there): whatever
+                # lies behind the frame in memory - an earlier, longer frame in a reused buffer - is not part of it.  Three copies
+                # differing in their last octet go through decode_from, Codec::decode and decode_from at an offset.
+                if decl < h + size:
+                    for last in (1, 2, 3):
+                        vals = bytes(range(1, vl)) + bytes([last]) if vl > 0 else b""
+                        exact = gen.be(code, 4) + bytes([0x80 if vend is not None else 0]) + gen.be(decl, 3) + (gen.be(vend, 4) if vend is not None else b"") + vals + b"\0" * pad
+                        if vl == 0:
+                            exact = exact[:-1] + bytes([last]) if pad else exact
+                        fam.append(("fixed-size-short-at-end", "g", bytes([1]) + gen.be(20 + len(exact), 3) + bytes([0x80]) + gen.be(272, 3) + gen.be(4, 4) + gen.be(1, 4) + gen.be(2, 4) + exact, False))
     tab = eng.ask_model(exhaustive_type_table(eng))
     for m in tab:
         _, o = split_obs(m)
@@ -843,14 +853,9 @@ def check_C04(chk, tier, seed):
             if mobs.startswith("PANIC") or mobs.startswith("OUTOFFUEL"):
                 chk.corr_break("model outcome " + mobs[:12] + " (contradicts theorem C04_never_panics: the runner is broken)", dict(case=c))
             elif im != mobs and is_complete(f):      # incomplete / over-long input: Ok-or-Err is all this property asks
-                known = False
-                if im.startswith("OK "):
-                    try:
-                        known = has_fixed_mismatch(parse_result(im)["msg"])
-                    except Exception:
-                        pass
-                if not known:
-                    chk.corr_break("decoder observation differs from the model", dict(case=c, kind=kind, impl=short(im, 2000), model=short(mobs, 2000)))
+                # (the model is faithful to the known finding KF-1 - fixed-size types ignore the declared length - so frames of that
+                # class compare equal too; nothing is exempted here)
+                chk.corr_break("decoder observation differs from the model", dict(case=c, kind=kind, impl=short(im, 2000), model=short(mobs, 2000)))
         if i % max(1, len(fam) // 6) == 0:
             chk.sample(dict(case=c, kind=kind, impl=short(im, 100)))
     # after a program poisoned the lock of the library's process-wide DEFAULT_DICT (a malformed document loaded into it panics the
